@@ -262,7 +262,12 @@ impl<'t> Gen<'t> {
     let typedef = match kind {
       0 => {
         self.feat("struct-class");
-        let n = 1 + self.t.choose(3);
+        let mut n = 1 + self.t.choose(3);
+        // recorded finding (C04): a one-field struct reaching an unboxed enum payload (also through a
+        // type argument) is `[v]` in the TypeScript backend, and `[0] == 0` holds in JavaScript
+        if !self.cfg.single_field_struct_payload {
+          n = n.max(2);
+        }
         let mut fields = vec![];
         for j in 0..n {
           let mut ty = if generic && j == 0 { Ty::TParam("T".into()) } else { self.pool_type(&tparams, 0) };
